@@ -122,6 +122,18 @@ CHECKS.update({
             "DESIGN.md 4/C20"),
 })
 
+CHECKS.update({
+    "C03": ("exploration",
+            "exhaustive enumeration of three expression-string corpora x load/evaluation contexts on the real evaluator under a runtime monitor (CPython audit hook, value-kind walker, before/after deep equality)",
+            "2.6k node-instance strings (every expression node class / operator / call shape / literal kind x 15 nesting wrappers), 25k attribute-closure strings (15 receivers x every "
+            "dir() name of 16 builtin types x 6 shapes, enumerated at run time) and 44k payload strings (classic escapes and all ordered pair splices) are loaded and evaluated "
+            "directly, in the 6 positions of a .rules file and as view filter / variable. No audit event may be raised by evaluation (only `compile` of the text when parsing), every "
+            "produced value / tag / field / transformed description must be plain data, transaction / rows / variables / ast.dump must be unchanged, and undocumented constructs must "
+            "be rejected or fail as ExpressionError.",
+            "strings outside the corpora are not covered; quick tier runs file contexts for the node corpus fully and for payloads round-robin, closure strings directly; thorough runs all contexts",
+            "DESIGN.md 4/C03"),
+})
+
 NOT_YET = {}
 
 PROPS = [json.loads(l)["id"] for l in open(os.path.join(ROOT, "properties.jsonl"))]
